@@ -508,13 +508,19 @@ def runBlocking (line : String) : String :=
           s!"{r},{atNotify},{atReturn}\tslow,d={if d > 30000 then "long" else "short"},sound={sound}"
         | none => "blocked\tslow"
     | _, _, _, _, _ => "bad-op"
-  | some (.list [.atom "bl", api, .atom op, ctx, rx, cap, prefill, timeout]) =>
+  | some (.list [.atom "bl", api, .atom op, ctx, rx0, cap, prefill, timeout]) =>
+    -- RX = spurious: a stalled receiver, the blocked caller woken twice without its condition being signalled. A
+    -- wakeup that leaves the flag unset is a step of `waitTimeout` that changes nothing but the remaining time
+    -- (C08.wait_timeout_within_budget): same result as `stalled`, returned within the budget (oracle on the real call)
+    let spurious := rx0 == .atom "spurious"
+    let rx := if spurious then .atom "stalled" else rx0
     match api? api, ctx? ctx, rxKind? rx, cap.nat?.filter (· ≥ 1), prefill.nat?, timeout? timeout with
     | some api, some ctx, some rx, some cap, some prefill, some timeout =>
       let cfg := Cfg.real cap
       let path := blockingPath api ctx
-      let rxn := match rx with | .live => "live" | .stalled => "stalled" | .gone => "gone" | .late => "late" | .refill => "refill" | .hangup => "hangup"
+      let rxn := if spurious then "spurious" else match rx with | .live => "live" | .stalled => "stalled" | .gone => "gone" | .late => "late" | .refill => "refill" | .hangup => "hangup"
       let sig := s!"{pathName path},{op},rx={rxn}"
+      if spurious ∧ (timeout < 300 ∨ timeout > 5000 ∨ api = .async) then "bad-op" else
       -- the counters after a send: truncations come from the prefill alone, blocked = the first attempt failed
       -- (against a live / late receiver thread with a full queue that depends on thread scheduling: `b=?`)
       let (mt, mb) := blockingSendCounters cfg rx prefill 999
